@@ -479,6 +479,13 @@ func (fx *FuncCtx) exitLoop(li *loopInfo, st *State, cond string) {
 		fx.emit("(assert " + imp(at.R, ta) + ") ;@hyp:hint." + c.Label)
 	}
 	for _, c := range spec.Steps {
+		if c.Kind == "backstep" {
+			continue
+		}
+		// an edge that leaves before the locals the clause names exist (the loop condition failing) ran no iteration
+		if henv := fx.clauseEnv(at, li.headSt, nil); !hintInScope(fx, henv, fx.curBlock, c) {
+			continue
+		}
 		t := fx.evalGoal(c, fx.clauseEnv(at, li.headSt, nil))
 		ob := fx.oblige(at, "step", fmt.Sprintf("step:loop%d.%s@exit%d", li.ordinal, c.Label, fx.exitN), t, token.NoPos, false)
 		fx.tagClause(ob, c)
